@@ -133,6 +133,9 @@ pub enum Op {
     ClaimCancel { ch: u8, end: End, cap: u8, polls: u8 },
     Establish { ch: u8, end: End },
     Send { ch: u8, n: u8 },
+    /// like `Send`, but the producer polls `Sender::poll_receiver_closed` once before every
+    /// `send_ready` (the shape of a `select!` loop that also watches for the receiver going away)
+    SendWatch { ch: u8, n: u8 },
     Recv { ch: u8, n: u8, wait: bool },
     CloseEnd { ch: u8, end: End },
     DropEnd { ch: u8, end: End },
@@ -458,7 +461,7 @@ pub fn needs(ci: usize, op: &Op) -> Vec<(usize, Res)> {
             vec![(ci, end_res(*end, *ch))]
         }
         Op::Bind { end, k, .. } => vec![(BOARD, Res::Unbound(*end as u8, *k))],
-        Op::Send { ch, .. } => vec![(ci, Res::SndEst(*ch))],
+        Op::Send { ch, .. } | Op::SendWatch { ch, .. } => vec![(ci, Res::SndEst(*ch))],
         Op::Recv { ch, .. } => vec![(ci, Res::RcvEst(*ch))],
         Op::AddFilter { l, .. }
         | Op::RemoveFilter { l, .. }
@@ -1151,7 +1154,11 @@ impl Gen<'_, '_> {
             _ => 6 + self.t.below(30),
         } as u8;
         let st2 = if self.t.bool() { self.task(sc) } else { st };
-        self.push(st2, Op::Send { ch: sch, n });
+        if self.t.weighted(&[2, 1]) == 1 {
+            self.push(st2, Op::SendWatch { ch: sch, n });
+        } else {
+            self.push(st2, Op::Send { ch: sch, n });
+        }
         let m = match self.t.below(3) {
             0 => n,
             1 => 1 + self.t.below(n as usize) as u8,
@@ -1312,7 +1319,11 @@ impl Gen<'_, '_> {
             2 => pick_true(self.t, &proxies).map(|p| Op::NextEvent { p, n: 2, wait: false }),
             3 => {
                 let ch = self.t.below(NCH) as u8;
-                Some(Op::Send { ch, n: 1 + self.t.below(8) as u8 })
+                if self.t.weighted(&[2, 1]) == 1 {
+                    Some(Op::SendWatch { ch, n: 1 + self.t.below(8) as u8 })
+                } else {
+                    Some(Op::Send { ch, n: 1 + self.t.below(8) as u8 })
+                }
             }
             4 => {
                 let ch = self.t.below(NCH) as u8;
